@@ -631,7 +631,7 @@ def update_closure_ctx(prog, callterm, assumptions=()):
     if callterm[1].startswith("cw_storage_plus::Item::"):
         stored = ("payload", ("call", "cw_storage_plus::Item::load", head), "Ok/Some")
     else:
-        stored = ("call", callterm[1].rsplit("::", 1)[0] + "::may_load", head + rest)
+        stored = ("payload", ("call", callterm[1].rsplit("::", 1)[0] + "::may_load", head + rest), "Ok/Some")
     caps = {n: v for _, n, v in clo[2]}
     return Ctx(cb, params={2: intern(stored)}, captures=caps, assumptions=assumptions)
 
@@ -1140,7 +1140,7 @@ def _normalise_op(prog, op):
             if op["type"] == "Item":
                 stored = ("payload", ("call", "cw_storage_plus::Item::load", head), "Ok/Some")
             else:
-                stored = ("call", "cw_storage_plus::%s::may_load" % op["type"], head + rest[:-1])
+                stored = ("payload", ("call", "cw_storage_plus::%s::may_load" % op["type"], head + rest[:-1]), "Ok/Some")
             caps = {n: v for _, n, v in clo[2]}
             cc = Ctx(cb, params={2: intern(stored)}, captures=caps, assumptions=op.get("assumptions", ())).settle()
             op["value"] = ok_payload(cc.T.return_term())
@@ -1432,6 +1432,13 @@ def resolve_terms(prog, t, depth=3, _memo=None, assumptions=()):
                 if a is True:
                     out = ok_payload(args[0])
                 elif a is False and t[1].endswith("unwrap_or") and len(args) > 1:
+                    out = args[1]
+            if out is None and assumptions and t[1] in ("std::option::Option::or", "std::result::Result::or") and len(args) == 2:
+                # a.or(b): a when the world says a is Some / Ok, b when it says None / Err
+                a = assumed_ok(assumptions, args[0])
+                if a is True:
+                    out = args[0]
+                elif a is False:
                     out = args[1]
             if out is None and cb is not None and depth > 0 and _is_pure_small(prog, cb):
                 c = Ctx(cb, params={i + 1: a for i, a in enumerate(args)}, assumptions=assumptions).settle()
